@@ -204,7 +204,7 @@ def check(case):
     try:
         write_molecule_itp(mol, buf, header=['generated by verif', 'second line'], **kw)
         raised = None
-    except ValueError as e:
+    except Exception as e:  # pylint: disable=broad-except
         raised = e
     expect_error = any(it.meta.get('ifdef') is not None and it.meta.get('ifndef') is not None
                        for lst in mol.interactions.values() for it in lst)
@@ -212,13 +212,13 @@ def check(case):
     if mass_only and not expect_error:
         # positional format: a mass without a charge cannot be stated; anything but a refusal misstates the atom
         feats['mass_without_charge'] = 1
-        if raised is None:
-            return ('atoms/mass-without-charge', {'text': buf.getvalue()[:600]}), False, feats
+        if not isinstance(raised, ValueError):
+            return ('atoms/mass-without-charge', {'text': buf.getvalue()[:600], 'raised': repr(raised)}), False, feats
         return None, False, feats
     if expect_error:
         feats['both_ifdef_ifndef'] = 1
-        if raised is None:
-            return ('guard/both-not-rejected', {'text': buf.getvalue()[:500]}), False, feats
+        if not isinstance(raised, ValueError):
+            return ('guard/both-not-rejected', {'text': buf.getvalue()[:500], 'raised': repr(raised)}), False, feats
         return None, False, feats
     if raised is not None:
         return ('writer-raised', {'error': repr(raised)}), False, feats
